@@ -185,6 +185,11 @@ def prepare_dir(sc, d, rng, inputs, extra, ref_out):
             f.write(b"#!/bin/sh\necho this is an unrelated file\n" * rng.randint(1, 400))
         os.chmod(out, 0o644)
         os.utime(out, (past, past))
+    elif sc["prior"] == "longer":
+        with open(out, "wb") as f:
+            f.write(b"previous, longer file at the output path\n" * 2000)
+        os.chmod(out, 0o755)
+        os.utime(out, (past, past))
     elif sc["prior"] == "busy":
         shutil.copyfile("/bin/sleep", out)
         os.chmod(out, 0o755)
@@ -539,6 +544,15 @@ def run_job(job):
     # otherwise). Only on links that succeed without faults.
     if base["kind"] == "ok" and not job.get("scenario"):
         ncfg = {"C17": 2, "C18": 1, "C19": 1}[prop] * (1 if tier == "quick" else 3)
+        if prop == "C17":
+            # Forced configuration: in-place update of a longer previous file without mmap, where
+            # every byte count (set_len, short writes) matters.
+            scenarios.append(dict(base, fault=None, fsize=None, sysfault="", _expand=True,
+                                  strategy=rng.choice(STRATEGIES), pseed=rng.getrandbits(48),
+                                  prior="longer", mode="--update-in-place",
+                                  mmap="--no-mmap-output-file" if index % 2 == 0 else None,
+                                  threads=rng.choice([2, 4]), fork=index % 4 < 2, depfile=False,
+                                  layout=False, siblings=False, _force_all=("ftruncate", "write")))
         for _ in range(ncfg):
             scenarios.append(dict(base, fault=None, fsize=None, sysfault="", _expand=True,
                                   strategy=rng.choice(STRATEGIES), pseed=rng.getrandbits(48),
@@ -555,6 +569,7 @@ def run_job(job):
         while queue:
             sc = queue.pop(0)
             expand = sc.pop("_expand", False)
+            force_all = sc.pop("_force_all", ())
             r = run_scenario(sc, seed, index, wl)
             if job.get("want_decisions"):
                 res["decisions"] = r.get("decisions", [])
@@ -573,13 +588,16 @@ def run_job(job):
                         ns = sorted(rng.sample(ns, per_kind))
                     for n in ns:
                         errs = SYS_ERRNOS[kind]
-                        for e in (errs if tier != "quick" and n_calls <= 4 else
+                        for e in (errs if (tier != "quick" and n_calls <= 4) or kind in force_all else
                                   rng.sample(errs, min(len(errs), 2))):
                             rule = f"{kind}#{n}={e}"
                             # A failing writable mmap makes wild fall back to write(); sometimes let
                             # that path meet a write fault too.
                             if kind == "mmap" and rng.random() < 0.5:
                                 rule += f";write#{rng.randint(1, 3)}={rng.choice(SYS_ERRNOS['write'])}"
+                            # the writable mapping cannot be created *and* the file cannot be resized
+                            if kind == "mmap" and "longer" == sc.get("prior") and rng.random() < 0.5:
+                                rule += f";ftruncate#{rng.randint(1, 2)}=EIO"
                             queue.append(dict(sc, sysfault=rule))
                 c["sysfault_profiles"] = c.get("sysfault_profiles", 0) + 1
                 for k, v in counts.items():
